@@ -20,6 +20,7 @@ RULE = (
     'sent by `set "A"` and compared with the exact Fraction reference '
     '(nearest integer, both neighbours on a tie, clamped). (3) Hypothesis: '
     'unit mode x register values (in range, out of range, huge, negative) x '
+    'job fresh or used before for a script ending in any unit mode x '
     'command kind (light, group, location, all, zone, inline matrix, block '
     'stage, default fill, on/off on light/group/location/all, and-lists); '
     'every request must pass the protocol oracle (ints in 0..65535 / '
@@ -261,8 +262,10 @@ def cases(draw):
         regs[reg] = draw(value_strategy(mode, reg))
     kind = draw(st.sampled_from(KINDS))
     with_default = draw(st.booleans())
+    # the job may have run another script before, ending in any unit mode
+    previous = draw(st.sampled_from([None, None, 'raw', 'rgb', 'logical']))
     return {'mode': mode, 'regs': {k: num(v) for k, v in regs.items()},
-            'kind': kind, 'with_default': with_default}
+            'kind': kind, 'with_default': with_default, 'previous': previous}
 
 
 def render(case):
@@ -336,7 +339,16 @@ def check_case(acc, case):
     mode = case['mode']
     regs = {reg: 0 for reg in REGS}
     regs.update({reg: parse_num(text) for reg, text in case['regs'].items()})
-    result = world.run(script, budget=20000)
+    job = None
+    if case.get('previous'):
+        earlier = world.run('units {} hue 3 saturation 4 brightness 5 '
+                            'duration 6 set "B" on "B"'.format(
+                                case['previous']), budget=20000)
+        job = earlier.job
+        job.load_string(script)
+        del world.trace[:]
+        del world.lan.protocol_errors[:]
+    result = world.run(script, budget=20000, job=job)
     payload = {'kind': 'case', 'case': case}
     in_range_rgb = mode != 'rgb' or all(
         0 <= regs[r] <= 100 for r in ('red', 'green', 'blue'))
@@ -426,6 +438,8 @@ def check_case(acc, case):
     nontrivial = any(x not in fixed_points for x in sent) or any(
         e[2] == 'set_power' and e[4] not in (0, ux.U32) for e in events)
     labels = ['kind:' + case['kind'], 'mode:' + mode]
+    if case.get('previous'):
+        labels.append('job-ran-before-in:' + case['previous'])
     if not in_range_rgb:
         labels.append('rgb-out-of-range')
     acc.case(key=script, nontrivial=nontrivial, labels=labels,
